@@ -178,6 +178,14 @@ pub fn e_segs(l: &[PathSeg]) -> String {
     }
     s
 }
+pub fn e_pts(l: &[Point]) -> String {
+    let mut s = format!("{}", l.len());
+    for x in l {
+        s.push(' ');
+        s.push_str(&e_pt(*x));
+    }
+    s
+}
 pub fn e_list(l: &[f64]) -> String {
     let mut s = format!("{}", l.len());
     for x in l {
